@@ -29,6 +29,8 @@
 #define K_CONT 5
 #define K_BLANK 6
 #define K_BAD 7
+#define K_JOIN 9     /* JOIN_SAME_ENTRIES: a further definition of the key k */
+#define K_PYCONT 8   /* PYTHON_STYLE: an indented line continues the previous value */
 
 #ifndef N
 #define N 8
@@ -166,6 +168,8 @@ static void spec_line(const char *p, struct spec *s)
     s->kind = L_CONT; s->vs = i; s->ve = e;
     return;
   }
+  /* PYTHON_STYLE: an indented line directly after an entry is a continuation (kind K_PYCONT) */
+  if (PYTHON && i > 0 && CTX_LAST_ENTRY) return;
   /* entry := b* key sep value tail */
   size_t ks = i;
   if (!key_byte(p[i])) return;
@@ -212,6 +216,7 @@ static void spec_line(const char *p, struct spec *s)
     if (q == n) return;                 /* unbalanced quote: unspecified */
     s->quoted = true; s->vs = i + 1; s->ve = q;
     if (!spec_tail(p, q + 1, n, s)) { s->kind = L_NONE; return; }
+    if (PYTHON && s->has_cmt) { s->kind = L_NONE; return; }   /* quoted value + comment in python style: unspecified */
     s->kind = L_ENTRY;
     return;
   }
@@ -219,7 +224,7 @@ static void spec_line(const char *p, struct spec *s)
   size_t vs = i, ve = i;
   if (delim_has_blank() && i < n && in_set(p[i], DELIM)) return; /* value starts with a delimiter byte: unspecified */
   while (i < n) {
-    if (in_set(p[i], COMMENT) || p[i] == '"') break;
+    if ((!PYTHON && in_set(p[i], COMMENT)) || p[i] == '"') break;
     if (!(is_print(p[i]) || is_blank(p[i]))) return;
     if (!is_blank(p[i])) ve = i + 1;
     i++;
@@ -257,6 +262,21 @@ static char *mk_line(struct spec *s)
   __CPROVER_assume(s->kind == L_BLANK);
 #elif KIND == K_BAD
   __CPROVER_assume(s->kind >= L_BAD_NOCLOSE);
+#elif KIND == K_JOIN
+  /* a further plain definition of the key "k" of the context */
+  __CPROVER_assume(s->kind == L_ENTRY && s->ke == s->ks + 1 && p[s->ks] == 'k' && s->has_val && !s->quoted && !s->has_cmt);
+#elif KIND == K_PYCONT
+  /* b+ text: indented, first non-blank byte neither a comment character nor
+   * '[' (an indented comment line is a comment, C05; an indented header is
+   * left unspecified); printable text, anything else allowed: delimiters,
+   * comment characters, quotes */
+  {
+    size_t n = text_len(p), i = 0;
+    while (i < n && is_blank(p[i])) i++;
+    __CPROVER_assume(i > 0 && i < n && !in_set(p[i], COMMENT) && p[i] != '[');
+    for (size_t k = i; k < n; k++) __CPROVER_assume(is_print(p[k]) || is_blank(p[k]));
+    s->vs = i; s->ve = n;
+  }
 #endif
   for (size_t i = 0; i <= N; i++) in_line_bytes[i] = p[i];
   return p;
@@ -425,6 +445,55 @@ int main(void)
   }
 #endif
 
+#if KIND == K_JOIN
+  __CPROVER_assert(ra == ECONF_SUCCESS, "C15: a repeated key parses");
+  if (ra == ECONF_SUCCESS && b->length >= 1 && a->length >= 1) {
+    const char *va = a->file_entry[0].value, *vb = b->file_entry[0].value;
+    __CPROVER_assert(same_str(a->file_entry[0].key, "k") && va != NULL, "C15: the first definition of the key carries the joined value");
+    if (va && vb) {
+      bool ok;
+      if (s.vs == s.ve) ok = va[0] == 0;      /* an empty definition resets the list */
+      else {
+        size_t k = 0;
+        while (vb[k] && va[k] == vb[k]) k++;
+        ok = vb[k] == 0 && va[k] == '\n';
+        if (ok) {
+          size_t m = 0;
+          for (; s.vs + m < s.ve; m++)
+            if (va[k + 1 + m] != line[s.vs + m]) ok = false;
+          if (ok) ok = va[k + 1 + m] == 0;
+        }
+      }
+      __CPROVER_assert(ok, "C15: JOIN_SAME_ENTRIES: the value is the concatenation, in file order, of the lines of all "
+                           "definitions since the last empty one");
+    }
+  }
+#endif
+
+#if KIND == K_PYCONT
+  __CPROVER_assert(ra == ECONF_SUCCESS, "C15: python style: an indented line parses");
+  if (ra == ECONF_SUCCESS) {
+    __CPROVER_assert(a->length == b->length, "C15: python style: an indented line adds no key even if it contains the delimiter");
+    if (a->length == b->length && idx >= 1) {
+      const char *va = a->file_entry[idx - 1].value, *vb = b->file_entry[idx - 1].value;
+      __CPROVER_assert(va != NULL && vb != NULL, "C15: continued value present");
+      if (va && vb) {
+        size_t k = 0;
+        while (vb[k] && va[k] == vb[k]) k++;
+        bool ok = vb[k] == 0 && va[k] == '\n';
+        if (ok) {
+          size_t m = 0;
+          for (; s.vs + m < s.ve; m++)
+            if (va[k + 1 + m] != line[s.vs + m]) ok = false;
+          if (ok) ok = va[k + 1 + m] == 0;
+        }
+        __CPROVER_assert(ok, "C15: python style: the line continues the previous value with its indentation removed; "
+                             "comment characters stay part of the value");
+      }
+    }
+  }
+#endif
+
 #if KIND == K_BAD
   /* C13: the specific code, the right line, the right file, nothing partial */
   econf_err want = s.kind == L_BAD_NOCLOSE ? ECONF_MISSING_BRACKET :
@@ -446,11 +515,13 @@ int main(void)
 #if KIND != K_BAD
   VACUITY(ra == ECONF_SUCCESS, "successful parse reachable");
 #endif
-#if KIND == K_ENTRY
+#if KIND == K_ENTRY && !(PYTHON && CTX_LAST_ENTRY)
   VACUITY(s.ks > 0, "indented key reachable");
 #ifndef KEYS_ONLY
   VACUITY(s.quoted, "quoted value reachable");
+#if !PYTHON
   VACUITY(s.has_cmt, "trailing comment reachable");
+#endif
 #endif
 #endif
 #if KIND == K_BAD
